@@ -188,13 +188,13 @@ func (c *NICase) yaml() string {
 		sb.WriteString("vars: " + m + "\n")
 	}
 	sb.WriteString("tasks:\n")
-	sb.WriteString("  m:\n    cmds:\n      - for: {matrix: {X: {ref: \".L\"}}}\n        cmd: " + yq("echo \"m|i|{{.TAG}}|{{.ITEM.X}}|\"") + "\n")
-	sb.WriteString("  leaf:\n    vars: {R: {sh: " + yq("echo r$V") + "}}\n    cmds: [" + yq("echo \"leaf|c|{{.TAG}}|{{.R}}|\"") + "]\n")
+	sb.WriteString("  m:\n    cmds:\n      - for: {matrix: {X: {ref: \".L\"}}}\n        cmd: " + yq("echo \"@m|i|{{.TAG}}|{{.ITEM.X}}|\"") + "\n")
+	sb.WriteString("  leaf:\n    vars: {R: {sh: " + yq("echo r$V") + "}}\n    cmds: [" + yq("echo \"@leaf|c|{{.TAG}}|{{.R}}|\"") + "]\n")
 	sb.WriteString("  dtask:\n    env: {DTAG: " + yq("{{.TAG}}") + "}\n    cmds:\n")
-	sb.WriteString("      - defer: " + yq("echo \"dfr|d|$DTAG|{{.NAME}}|\"") + "\n")
+	sb.WriteString("      - defer: " + yq("echo \"@dfr|d|$DTAG|{{.NAME}}|\"") + "\n")
 	sb.WriteString("      - defer: {task: report, vars: {WHO: " + yq("{{.NAME}}") + ", RTAG: " + yq("{{.TAG}}") + "}}\n")
-	sb.WriteString("      - " + yq("echo \"dfr|s|$DTAG|start|\"") + "\n")
-	sb.WriteString("  report:\n    cmds: [" + yq("echo \"rep|r|{{.RTAG}}|{{.WHO}}|\"") + "]\n")
+	sb.WriteString("      - " + yq("echo \"@dfr|s|$DTAG|start|\"") + "\n")
+	sb.WriteString("  report:\n    cmds: [" + yq("echo \"@rep|r|{{.RTAG}}|{{.WHO}}|\"") + "]\n")
 	if c.Combine != "" {
 		var names []string
 		for _, k := range c.Order {
@@ -239,16 +239,16 @@ func (c *NICase) yaml() string {
 		}
 		var cmds []string
 		for _, e := range t.Vars {
-			cmds = append(cmds, yq(fmt.Sprintf("echo \"%s|v|%s|{{.%s}}|\"", t.Name, e.Name, e.Name)))
+			cmds = append(cmds, yq(fmt.Sprintf("echo \"@%s|v|%s|{{.%s}}|\"", t.Name, e.Name, e.Name)))
 		}
 		for _, e := range t.Env {
-			cmds = append(cmds, yq(fmt.Sprintf("echo \"%s|e|%s|$%s|\"", t.Name, e.Name, e.Name)))
+			cmds = append(cmds, yq(fmt.Sprintf("echo \"@%s|e|%s|$%s|\"", t.Name, e.Name, e.Name)))
 		}
 		for _, n := range c.pgVars() {
-			cmds = append(cmds, yq(fmt.Sprintf("echo \"%s|v|%s|{{.%s}}|\"", t.Name, n, n)))
+			cmds = append(cmds, yq(fmt.Sprintf("echo \"@%s|v|%s|{{.%s}}|\"", t.Name, n, n)))
 		}
 		for _, n := range c.pgEnv() {
-			cmds = append(cmds, yq(fmt.Sprintf("echo \"%s|e|%s|$%s|\"", t.Name, n, n)))
+			cmds = append(cmds, yq(fmt.Sprintf("echo \"@%s|e|%s|$%s|\"", t.Name, n, n)))
 		}
 		if len(cmds) == 0 {
 			cmds = append(cmds, yq("true"))
@@ -315,6 +315,16 @@ func newExecutor(root string, out, errw *lockedBuf, parallel bool) (*task.Execut
 	return e, nil
 }
 
+// records: the probe records "@a|b|c|d|" of an output. Concurrent tasks share stdout and the shell
+// writes a line and its newline separately, so records are located by their start marker, not by lines.
+func records(out string) []string {
+	parts := strings.Split(out, "@")
+	if len(parts) <= 1 {
+		return nil
+	}
+	return parts[1:]
+}
+
 // outputsOf extracts the target's probe values from the output.
 func (c *NICase) outputsOf(out, root string, alone bool) Outputs {
 	t := c.Tasks[c.Target]
@@ -323,7 +333,7 @@ func (c *NICase) outputsOf(out, root string, alone bool) Outputs {
 		// the deferred command carries the call's tag through the (per-call) environment; the deferred
 		// task call can only be attributed by its position when the calls ran one after the other
 		var echo, rep, repTagged []string
-		for _, ln := range strings.Split(out, "\n") {
+		for _, ln := range records(out) {
 			f := strings.Split(ln, "|")
 			if len(f) >= 5 && f[0] == "dfr" && f[1] == "d" && f[2] == t.Tag {
 				echo = append(echo, f[3])
@@ -369,7 +379,7 @@ func (c *NICase) outputsOf(out, root string, alone bool) Outputs {
 		return o
 	}
 	if t.Caller {
-		for _, ln := range strings.Split(out, "\n") {
+		for _, ln := range records(out) {
 			f := strings.Split(ln, "|")
 			if len(f) >= 5 && f[0] == "m" && f[1] == "i" && f[2] == t.Tag {
 				o.Items = append(o.Items, f[3])
@@ -381,7 +391,7 @@ func (c *NICase) outputsOf(out, root string, alone bool) Outputs {
 		return o
 	}
 	vals := map[string][]string{}
-	for _, ln := range strings.Split(out, "\n") {
+	for _, ln := range records(out) {
 		f := strings.Split(ln, "|")
 		if len(f) >= 5 && f[0] == t.Name {
 			vals[f[1]+"/"+f[2]] = append(vals[f[1]+"/"+f[2]], canon(f[3], root))
@@ -514,23 +524,66 @@ func (c *NICase) ctxs(order []int) ([]Ctx, int) {
 }
 
 func (c *NICase) Coq() string {
-	xs, target := c.ctxs(c.Order)
+	return c.CoqWithDefs(NewInterner()) // not used: the driver emits the definitions through one Interner
+}
+
+// Interner gives every distinct Coq term of a cases.v one Definition.
+type Interner struct {
+	names map[string]string
+	sb    strings.Builder
+}
+
+func NewInterner() *Interner { return &Interner{names: map[string]string{}} }
+
+func (in *Interner) Def(typ, term string) string {
+	key := typ + "\x00" + term
+	if n, ok := in.names[key]; ok {
+		return n
+	}
+	n := fmt.Sprintf("d%d", len(in.names))
+	in.names[key] = n
+	fmt.Fprintf(&in.sb, "Definition %s : %s := %s.\n", n, typ, term)
+	return n
+}
+
+func (in *Interner) String() string { return in.sb.String() }
+
+// CoqWithDefs: the Taskfile-level env / vars, every group of compilations and the dumps of the
+// definitions are defined once per distinct content; the nrun record refers to them by name.
+func (c *NICase) CoqWithDefs(in *Interner) string {
+	ge := in.Def("list entry", coqEntries(c.GEnv))
+	gv := in.Def("list entry", coqEntries(c.GVars))
+	group := func(xs []Ctx) string {
+		items := make([]string, len(xs))
+		for i, x := range xs {
+			items[i] = in.Def("tctx", coqCtxShared(x, ge, gv))
+		}
+		return in.Def("list tctx", cg.List(items))
+	}
+	// one group per started task: its own compilation followed by those of the tasks it calls
+	var groups []string
+	fixed := 0
 	if c.Combine != "" {
 		// the combining task is compiled first (it evaluates the Taskfile-level variables for itself)
-		xs = append([]Ctx{{Name: "combo", Special: specials("combo"), GEnv: c.GEnv, GVars: c.GVars, RootDir: "ROOT", TaskDir: "ROOT"}}, xs...)
-		target++
+		groups = append(groups, group([]Ctx{{Name: "combo", Special: specials("combo"), RootDir: "ROOT", TaskDir: "ROOT"}}))
+		fixed = 1
 	}
-	items := make([]string, len(xs))
-	for i, x := range xs {
-		items[i] = coqCtx(x)
+	tg, ti := 0, 0
+	aname := "[]"
+	for _, k := range c.Order {
+		xs, inner := c.ctxs([]int{k})
+		name := group(xs)
+		if k == c.Target {
+			tg, ti = len(groups), inner
+			aname = name
+		}
+		groups = append(groups, name)
 	}
-	axs, _ := c.ctxs([]int{c.Target})
-	aitems := make([]string, len(axs))
-	for i, x := range axs {
-		aitems[i] = coqCtx(x)
-	}
-	return fmt.Sprintf("{| nr_os := []; nr_tasks := %s; nr_target := %d; nr_parallel := %s; nr_alone_tasks := %s; nr_alone := %s; nr_ctx := %s; nr_defs_before := %s; nr_defs_after := %s |}",
-		cg.List(items), target, cg.Bool(c.Parallel || c.Combine == "deps"), cg.List(aitems), coqOutputs(c.Alone), coqOutputs(c.Ctx), coqRows(c.DefsBefore), coqRows(c.DefsAfter))
+	return fmt.Sprintf("{| nr_os := []; nr_groups := %s; nr_fixed := %d; nr_target := (%d, %d); nr_parallel := %s; nr_alone_tasks := %s; nr_alone_target := %d; "+
+		"nr_alone := %s; nr_ctx := %s; nr_defs_before := %s; nr_defs_after := %s |}",
+		cg.List(groups), fixed, tg, ti, cg.Bool(c.Parallel || c.Combine == "deps"), aname, ti,
+		in.Def("outputs", coqOutputs(c.Alone)), in.Def("outputs", coqOutputs(c.Ctx)),
+		in.Def("rows", coqRows(c.DefsBefore)), in.Def("rows", coqRows(c.DefsAfter)))
 }
 
 // StressMatrix: concurrent CompiledTask calls of the matrix task with different
